@@ -308,7 +308,8 @@ theorem completions_eq (s : State) (pend : List Pend) :
         | .cls i => if isLive s i then (done, keep ++ [p])
                     else (done ++ [(p.tag, if closeErrOf s i then 2 else 1)], keep)
         | .slow _ _ => (done, keep ++ [p])
-        | .run _ _ => (done, keep ++ [p])) (d0, k0)
+        | .run _ _ => (done, keep ++ [p])
+        | .upl _ _ _ => (done, keep ++ [p])) (d0, k0)
       = (d0 ++ l.filterMap (doneOf s), k0 ++ l.filter (keepOf s)) := by
     intro l
     induction l with
@@ -319,6 +320,7 @@ theorem completions_eq (s : State) (pend : List Pend) :
       cases hk : p.kind with
       | slow a b => simp [ih, doneOf, keepOf, hk]
       | run a b => simp [ih, doneOf, keepOf, hk]
+      | upl a b c => simp [ih, doneOf, keepOf, hk]
       | del i f =>
         by_cases hl : isLive s i <;> simp [ih, doneOf, keepOf, hk, hl]
       | cls i =>
